@@ -1829,7 +1829,7 @@ def check_C04(tier, seed):
     for j, d in enumerate(canon + gens):
         c = Case('s%d' % j)
         c.eval('(setq g 0) ' + d.replace('(if (< n 1) acc', '(if (< n 1) (progn (probe) acc)', 1).replace('(cond ((< n 1) acc)', '(cond ((< n 1) (probe) acc)', 1))
-        c.eval('(f 10 0)'); c.eval('(f 10000 0)'); c.eval('(f %d 0)' % big)
+        c.eval('(f 10 0)'); c.eval('(f 10000 0)'); c.eval('(f %d 0)' % big); c.eval('(nofn)')
         stack_cases.append((c, d))
     j_of = {c.cid: j for j, (c, _) in enumerate(stack_cases)}
     for binary, label in ((core.TLIMPL_DEBUG, 'debug'), (core.TLIMPL_RELEASE, 'release')):
@@ -1837,18 +1837,18 @@ def check_C04(tier, seed):
         for c, d in stack_cases:
             ls = out.get(c.cid, [])
             depths = []
-            ok = len(ls) == 4
-            ref = None
-            for l in ls[1:]:
+            ok = len(ls) == 5
+            # the last request is a call of the undefined function nofn: the only error a generated definition can
+            # raise (in its terminating branch, for some n); anything else than a value or that error fails
+            nofn = None
+            if ok:
+                pl5 = core.parse_line(ls[4].rsplit(' S ', 1)[0]) if ' S ' in ls[4] else core.parse_line(ls[4])
+                nofn = (pl5[1], pl5[2])
+            for l in ls[1:4]:
                 m = re.search(r' S (\d+)$', l)
                 pl_ = core.parse_line(l.rsplit(' S ', 1)[0]) if ' S ' in l else core.parse_line(l)
                 kind = pl_[1]
-                # a generated definition may end in an error by construction (a call of an undefined function in
-                # its terminating branch): the 10-iteration call is the reference, and the long runs must end the
-                # same way (same kind, same error class) - a value for the hand-written definitions
-                sig = (kind, pl_[2] if kind == 'E' else None)
-                if ref is None: ref = sig
-                if kind not in ('V', 'E') or sig != ref: ok = False
+                if kind != 'V' and (kind, pl_[2]) != nofn: ok = False
                 if j_of[c.cid] < len(canon) and kind != 'V': ok = False
                 depths.append(int(m.group(1)) if m else None)
             res.cov['evaluations'] += len(ls)
